@@ -331,7 +331,7 @@ func c07Check(a *artefacts, tier string, seed uint64, replay string) int {
 			{Name: "maps-reversed+stale-output", MapMode: "reversed", Strategy: "rtb", Parallelism: 1, Stale: true},
 			{Name: "maps-random+schedule+parallelism", MapMode: "random", MapSeed: pr.Uint64(), Strategy: "random", SchedSeed: pr.Uint64(), Parallelism: 2 + pr.Intn(15), PoolSeed: pr.Uint64()},
 			{Name: "after-other-invocations-in-the-same-process", MapMode: "sorted", Strategy: "rtb", Parallelism: 1, Prelude: c07Prelude(pr, pair)},
-			{Name: "other-output-dir+stale-output", MapMode: "random", MapSeed: pr.Uint64(), Strategy: "pct", SchedSeed: pr.Uint64(), Parallelism: 1 + pr.Intn(16), OutDir: []string{"/elsewhere/deep/o2", "/work/gen-out", "/o"}[pr.Intn(3)], Stale: true},
+			{Name: "other-output-dir+stale-output", MapMode: "random", MapSeed: pr.Uint64(), Strategy: "pct", SchedSeed: pr.Uint64(), Parallelism: 1 + pr.Intn(16), OutDir: []string{"/elsewhere/deep/o2", "/work/gen-out", "/o", "/srv/proj.gopath/gen", "/data/v1.golden"}[pr.Intn(5)], Stale: true},
 			{Name: "maps-random-2", MapMode: "random", MapSeed: pr.Uint64(), Strategy: "rtb", Parallelism: 1},
 			{Name: "schedule-only", MapMode: "sorted", Strategy: "random", SchedSeed: pr.Uint64(), Parallelism: 16, PoolSeed: pr.Uint64()},
 			{Name: "maps-random-3+stale", MapMode: "random", MapSeed: pr.Uint64(), Strategy: "pct", SchedSeed: pr.Uint64(), Parallelism: 8, Stale: true},
